@@ -375,3 +375,26 @@ Theorem C05_concat_empty_tail_refuted :
   /\ spec_concat two_parts [] [full; ASlice (Some 1) (Some 0) None] <> Err.
 Proof. exact concat_empty_tail_refuted. Qed.
 Print Assumptions C05_concat_empty_tail_refuted.
+
+(* F30b *)
+Theorem C05_concat_negative_step_refuted :
+  run_concat two_parts [ASlice None None (Some (-1))] = Err
+  /\ spec_concat two_parts [] [ASlice None None (Some (-1))] <> Err.
+Proof. exact concat_negative_step_refuted. Qed.
+Print Assumptions C05_concat_negative_step_refuted.
+
+(* ---- the unsupported forms are REJECTED (C05_getitem* / C05_concat* say: whatever is answered equals the spec) ---- *)
+
+(* a negative step on the first dimension of the concatenated indexer is rejected for every list of parts, every
+   bounds and every tail: never answered from the wrong indexer *)
+Theorem C05_concat_negative_step_rejected : forall ps dt total S a b c tail start stop stride,
+  slice_indices total a b c = Some (start, stop, stride) -> stride < 0 ->
+  c_head ps dt total S (ASlice a b c) tail = Err.
+Proof. exact concat_negative_step_rejected. Qed.
+Print Assumptions C05_concat_negative_step_rejected.
+
+(* a scalar outside [-len, len) on the first dimension is rejected *)
+Theorem C05_concat_scalar_out_of_range_rejected : forall ps dt total S z tail, 0 <= total -> z < - total \/ total <= z ->
+  c_head ps dt total S (AInt z) tail = Err.
+Proof. exact concat_scalar_out_of_range_rejected. Qed.
+Print Assumptions C05_concat_scalar_out_of_range_rejected.
